@@ -230,6 +230,8 @@ package controller
 //@   ensures [C11] dry(c, nodeGroup) ==> Jlen == old(Jlen)
 //@   ensures forall k :: old(Jlen) <= k && k < Jlen ==> Jkind[k] == K_UPDATE
 //@   ensures [C01,C09,C10,C12] forall k :: old(Jlen) <= k && k < Jlen ==> LNby[Jname[k]] != nil && clsU(LNby[Jname[k]])
+// C06: exactly n nodes end up tainted unless every node given was attempted (the only way to fall short is a failing write)
+//@   ensures [C06] !dry(c, nodeGroup) ==> len(res) == n || (forall q {elemref(nodes, q)} :: 0 <= q && q < len(nodes) ==> getSeen[nodes[q].Name])
 // C08 oldest first: no node given that was left unattempted (no fetch of it was issued) is strictly older than a node a write was sent for
 //@   ensures [C08] !dry(c, nodeGroup) ==> (forall k, q {Jname[k], elemref(nodes, q)} :: old(Jlen) <= k && k < Jlen && 0 <= q && q < len(nodes) && !getSeen[nodes[q].Name] ==> !older(nodes[q], LNby[Jname[k]]))
 //@ loop #0
@@ -238,9 +240,9 @@ package controller
 //@   invariant forall k :: 0 <= k && k < #i ==> sorted[k].node == nodes[k] && sorted[k].index == k
 //@ loop #1
 //@   invariant [C08] forall i, j :: 0 <= i && i < j && j < len(sorted) ==> !older(sorted[j].node, sorted[i].node)
-//@   invariant [C08] !dry(c, nodeGroup) ==> (forall p :: 0 <= p && p < #i ==> getSeen[sorted[p].node.Name])
-//@   invariant [C08] forall s string :: old(getSeen)[s] ==> getSeen[s]
-//@   invariant [C08] forall q {elemref(nodes, q)} :: 0 <= q && q < len(nodes) ==> 0 <= spinv(base(sorted), q) && spinv(base(sorted), q) < len(sorted) && sorted[spinv(base(sorted), q)].index == q
+//@   invariant [C06,C08] !dry(c, nodeGroup) ==> (forall p :: 0 <= p && p < #i ==> getSeen[sorted[p].node.Name])
+//@   invariant [C06,C08] forall s string :: old(getSeen)[s] ==> getSeen[s]
+//@   invariant [C06,C08] forall q {elemref(nodes, q)} :: 0 <= q && q < len(nodes) ==> 0 <= spinv(base(sorted), q) && spinv(base(sorted), q) < len(sorted) && sorted[spinv(base(sorted), q)].index == q
 //@   invariant [C08] !dry(c, nodeGroup) ==> (forall k, p {Jname[k], elemref(sorted, p)} :: old(Jlen) <= k && k < Jlen && #i <= p && p < len(sorted) ==> !older(sorted[p].node, LNby[Jname[k]]))
 //@   modifies elems(taintedIndices), nodeGroup.taintTracker, elems(nodeGroup.taintTracker)
 //@   invariant base(taintedIndices) == entry(base(taintedIndices)) && cap(taintedIndices) == n && off(taintedIndices) == 0
@@ -333,6 +335,8 @@ package controller
 
 // scaleDownTaint. C03: never more successful taints than untainted - min_nodes; refuses below the minimum.
 //@ func (*Controller).scaleDownTaint(c, opts) (n, err)
+// C06: the oldest-first pass is asked for exactly min(amount, untainted - min_nodes) of the untainted list
+//@   assert @taintOldestN#1 [C06] #arg3 == min(opts.nodesDelta, len(opts.untaintedNodes) - opts.nodeGroup.Opts.MinNodes) && #arg2 == opts.nodeGroup && base(#arg1) == base(opts.untaintedNodes) && off(#arg1) == off(opts.untaintedNodes) && len(#arg1) == len(opts.untaintedNodes)
 //@   requires c != nil && opts.nodeGroup != nil && c.Client != nil && opts.nodesDelta >= 0 && k8s.named(opts.untaintedNodes)
 //@   requires [C01,C09,C10,C12] !dry(c, opts.nodeGroup) ==> allU(opts.untaintedNodes)
 //@   modifies Jlen, Jkind, Jname, Jnode, Jok, Jesc, clock, nTaintOK, nUntaintOK, getSeen, nGet, nKFail, opts.nodeGroup.taintTracker, elems(opts.nodeGroup.taintTracker)
@@ -428,6 +432,8 @@ package controller
 
 // ScaleDown = reap expired tainted nodes, then taint. A not-in-group error from the reaper stops it.
 //@ func (*Controller).ScaleDown(c, opts) (n, err)
+// C06: the taint pass is asked for exactly the amount (and the lists) handed to ScaleDown - reaping does not eat into the rate
+//@   assert @scaleDownTaint#1 [C06] #arg1.nodesDelta == opts.nodesDelta && #arg1.nodeGroup == opts.nodeGroup && base(#arg1.untaintedNodes) == base(opts.untaintedNodes) && off(#arg1.untaintedNodes) == off(opts.untaintedNodes) && len(#arg1.untaintedNodes) == len(opts.untaintedNodes)
 //@   requires c != nil && opts.nodeGroup != nil && c.Client != nil && c.cloudProvider != nil && k8s.named(opts.taintedNodes) && k8s.named(opts.untaintedNodes) && opts.nodesDelta >= 0
 //@   requires k8s.infoMapOK(opts.nodeGroup.NodeInfoMap) && durCacheOK(optsOf(opts.nodeGroup))
 //@   requires [C01,C09,C10,C12] !dry(c, opts.nodeGroup) ==> allT(opts.taintedNodes) && allU(opts.untaintedNodes)
